@@ -45,3 +45,22 @@ func (in *Interp) JoinOutcomes(g []Outcome, t types.Type) Outcome {
 
 // ValueString renders an abstract value (debugging).
 func ValueString(v Value) string { return valStr(v) }
+
+// KnownElems returns the elements of slice sv (index relative to the slice start) whose value
+// is known in heap h because they were written at constant offsets.
+func (h *Heap) KnownElems(sv SliceV) map[int64]Lin {
+	out := map[int64]Lin{}
+	base, ok := sv.Off.ConstVal()
+	if !ok || sv.Reg == nil {
+		return out
+	}
+	for _, k := range h.known[sv.Reg] {
+		if k.off >= base {
+			out[k.off-base] = k.val
+		}
+	}
+	return out
+}
+
+// EntailsEq reports h |- l == 0.
+func (h *Heap) EntailsEq(l Lin) bool { return h.entails(l) && h.entails(l.Neg()) }
